@@ -42,6 +42,13 @@ CATALOGUE = [
     '(declare-const w Int)\n(declare-const a Int)\n(assert (= w (+ a 1)))\n',
     '(declare-const p Bool)\n(declare-const q Bool)\n(declare-const r Bool)\n(assert (= p (and q r)))\n',
     '(declare-const v (_ BitVec 8))\n(declare-const u (_ BitVec 8))\n(assert (= (bvadd u #x01) v))\n(assert (bvult v u))\n',
+    # a definition that mentions itself (not legal SMT-LIB, but ddSMT makes
+    # such inputs itself: a declaration erased, a defined symbol renamed to
+    # the name it is defined by): inlining must not propose the same input
+    '(define-fun g () Int g)\n(assert (> g 0))\n',
+    '(define-fun f ((y Int)) Int (f y))\n(declare-const k Int)\n(assert (> (f k) 0))\n',
+    '(declare-const g Int)\n(define-fun fg () Int g)\n(assert (p fg))\n',
+    '(define-fun h ((y Int)) Int (+ (h y) 1))\n(declare-const k Int)\n(assert (> (h k) (h 0)))\n',
     # an equality between two copies of a term: a fresh variable for one of
     # them can be eliminated again
     '(declare-const a Int)\n(assert (= (+ a 1) (+ a 1)))\n',
